@@ -3,6 +3,7 @@
 // target in engine/fuzz/, driven by driver/c09.py.
 #include "prog.hpp"
 #include "props.hpp"
+#include <cerrno>
 #include <fcntl.h>
 #include <unistd.h>
 
@@ -47,6 +48,7 @@ static bool run_fz(const FzCase &c, std::string &why) {
   if (c.flags & 1) asm_set_debug(a, true);
   asm_set_offset(a, c.start);
   bool ok = true; int start = c.start;
+  { static const int E[] = {0, EINTR, ERANGE, ENOMEM, EAGAIN, EINVAL, EBADF, EIO}; errno = E[(c.text.size() + c.start + c.chunk) % 8]; }
   for (int call = 0; call < ((c.flags & 2) ? 2 : 1) && ok; call++) {
     int rc, cnt = 0;
     if (c.mode == 2) { std::vector<char> w(c.text.begin(), c.text.end()); w.push_back(0); rc = (c.flags & 4) ? assemble_string_counting_chunks(a, w.data(), c.chunk, &cnt) : asm_assemble_string_counting_chunks(a, w.data(), c.chunk, &cnt); }
@@ -82,6 +84,7 @@ static void odd_files(hz::Ctx &ctx) {
     if (k == 8 && access("/dev/zero", R_OK) != 0) continue;
     std::vector<uint8_t> b(4096, 0x5a); assemblyline_t a = asm_create_instance(internal ? nullptr : b.data(), 4096); std::vector<char> p(ODD[k], ODD[k] + strlen(ODD[k]) + 1); int cnt = 0;
     ctx.watchdog_s = 20; alarm(20);
+    { static const int E[] = {EINTR, 0, EAGAIN, ENOMEM, EINTR, EIO}; errno = E[(k + entry + internal) % 6]; }   // errno is the caller's and arbitrary on entry
     int rc = entry == 0 ? asm_assemble_file(a, p.data()) : entry == 1 ? assemble_file(a, p.data()) : asm_assemble_file_counting_chunks(a, p.data(), 16, &cnt);
     ctx.watchdog_s = 300; alarm(300);
     asm_destroy_instance(a);
@@ -137,6 +140,7 @@ void prop_c09_grammar(hz::Ctx &ctx) {
 int replay_fz(const std::string &caseid) {
   if (caseid.compare(0, 3, "FO|") == 0) { auto f = split(caseid, '|'); if (f.size() != 4) return 2; static const char *ODD[] = {"/sys/devices/system/cpu/online", "/proc/self/cmdline", "/dev/null", "/proc/self/status", "/sys/kernel/mm/transparent_hugepage/enabled", "/proc/self/maps", "/", "/proc/self/fd", "/dev/zero", "/proc/self/environ"};
     int k = atoi(f[1].c_str()) % 10, entry = atoi(f[2].c_str()), internal = atoi(f[3].c_str()); std::vector<uint8_t> b(4096, 0x5a); assemblyline_t a = asm_create_instance(internal ? nullptr : b.data(), 4096); std::vector<char> p(ODD[k], ODD[k] + strlen(ODD[k]) + 1); int cnt = 0;
+    { static const int E[] = {EINTR, 0, EAGAIN, ENOMEM, EINTR, EIO}; errno = E[(k + entry + internal) % 6]; }
     alarm(20); int rc = entry == 0 ? asm_assemble_file(a, p.data()) : entry == 1 ? assemble_file(a, p.data()) : asm_assemble_file_counting_chunks(a, p.data(), 16, &cnt); alarm(0); asm_destroy_instance(a);
     printf("%s: returned %d\n", ODD[k], rc); return (rc == 0 || rc == 1) ? 0 : 1; }
   auto f = split(caseid, '|'); if (f.size() < 7 || f[0] != "FZ") return 2;
